@@ -629,6 +629,47 @@ pub fn run(ctx: &Ctx) -> Report {
         rep.bound(&name, json!({"max_variables": n, "cnfs": sets.len(), "elimination_orders": "all permutations"}));
         rep.merge(fam);
     }
+    // long and wide formulas: the long-formula families of C05 (9 to 70 clauses over 6 to 10 variables) and chain /
+    // ladder / star formulas over 33 to 260 variables: every order the library derives, and the dtree and its
+    // vtree under three elimination orders (by label, reversed, interleaved halves)
+    if !disabled("longorders") {
+        let mut forms: Vec<(String, Vec<Clause>)> = crate::props::longcnf::families(ctx).into_iter().map(|(n, _, c)| (n, c)).collect();
+        for &n in ctx.tier.pick(vec![33usize, 65, 130, 260], vec![17, 33, 64, 65, 129, 130, 256, 257, 260, 300]).iter() {
+            forms.push((format!("implication chain over {} variables", n), (0..n - 1).map(|i| vec![(i, false), (i + 1, true)]).collect()));
+            forms.push((format!("ladder over {} variables", n), (0..n - 2).map(|i| vec![(i, i % 2 == 0), (i + 1, true), (i + 2, false)]).collect()));
+            forms.push((format!("star over {} variables", n), (1..n).map(|i| vec![(0, i % 3 == 0), (n - i, true)]).collect()));
+        }
+        let lf = par_run(ctx, &forms, |_, (name, clauses)| {
+            let mut r = Report::default();
+            r.exhaustive = true;
+            r.states += 1;
+            r.traces += 1;
+            let nv = num_vars(clauses);
+            if let Some((k, w)) = check_orders_of(clauses, false) {
+                r.violation(format!("wellformed:{}", k), format!("{} ({} clauses): {}", name, clauses.len(), w), json!({"kind": "long_orders"}));
+            }
+            let id: Vec<usize> = (0..nv).collect();
+            let rev: Vec<usize> = (0..nv).rev().collect();
+            let mut inter: Vec<usize> = Vec::new();
+            for i in 0..(nv + 1) / 2 {
+                inter.push(i);
+                if i + (nv + 1) / 2 < nv {
+                    inter.push(i + (nv + 1) / 2);
+                }
+            }
+            for elim in [id, rev, inter] {
+                r.transitions += 1;
+                if let Some((k, w)) = check_cnf_case(clauses, &elim) {
+                    r.violation(format!("wellformed:{}", k), format!("{} ({} clauses), elimination order starting {:?}: {}", name, clauses.len(), &elim[..elim.len().min(6)], w.chars().take(400).collect::<String>()), json!({"kind": "long_orders"}));
+                    break;
+                }
+            }
+            r
+        });
+        rep.add_extra("long_and_wide_formulas", lf.states);
+        rep.bound("long_and_wide_formulas", json!({"formulas": forms.len(), "families": "long-formula families of C05; implication chains, ladders and stars over 33 to 260 (17 to 300) variables", "elimination_orders": "by label, reversed, interleaved halves"}));
+        rep.merge(lf);
+    }
     // vtree side
     let maxn = ctx.tier.pick(4, 5);
     let mut trees: Vec<VT> = Vec::new();
@@ -702,6 +743,10 @@ pub fn run(ctx: &Ctx) -> Report {
 }
 
 pub fn replay(_ctx: &Ctx, case: &Value) -> Report {
+    if case["kind"].as_str() == Some("long_orders") {
+        // the long / wide formula regime is cheap: re-run the whole check
+        return run(_ctx);
+    }
     let mut rep = Report::default();
     match case["kind"].as_str() {
         Some("orders") => {
